@@ -180,10 +180,26 @@ func H_C16_template() {
 		}
 		want += tpl[i : i+1]
 	}
+	// the sanitizer's lexer follows PostgreSQL lexical rules while the parser
+	// is MySQL: templates using the constructs that differ are classified so
+	// that each known difference is reported under its own label
+	class_ := ""
+	for i := 0; i < len(t); i++ {
+		switch {
+		case t[i] == '`':
+			class_ = "/backtick-identifier"
+		case t[i] == '#' && class_ == "":
+			class_ = "/hash-comment"
+		case t[i] == '-' && i+1 < len(t) && t[i+1] == '-' && class_ == "":
+			class_ = "/dash-dash"
+		case t[i] == '\\' && class_ == "":
+			class_ = "/backslash-escape"
+		}
+	}
 	if replaced {
-		verif.Assert(err == nil && out == want, "placeholders-outside-literals-only")
+		verif.Assert(err == nil && out == want, "placeholders-outside-literals-only"+class_)
 	} else {
-		verif.Assert(err != nil || out == tpl, "literal-placeholders-left-alone")
+		verif.Assert(err != nil || out == tpl, "literal-placeholders-left-alone"+class_)
 	}
 	verif.Reach("end")
 }
